@@ -176,6 +176,19 @@ let handle (f : string list) : string =
     if not (closedb O t && has_typeb [] t x) then "illtyped"
     else (match show_any dummy_leaves (conv = "1") (n_of_dec ctx) (url = "1") t x with
       | ROk _ -> "ok" | RCannotShow -> "cannotshow" | RPanic -> "panic" | RStuck -> "stuck")
+  | ["render"; fn; ty; v; orc] ->
+    let f = if fn = "JS" then FJS else FJSON in
+    missing := [];
+    let l = concrete (leaves_of (parse_oracles orc)) in
+    let r = (match show_top l f (ty_of_string ty) (val_of_string v) with
+      | ROk b -> "ok:" ^ hex_of_bytes b | RCannotShow -> "cannotshow" | RPanic -> "panic" | RStuck -> "stuck") in
+    (match !missing with [] -> r | k :: _ -> r ^ "!missing-oracle:" ^ k)
+  | ["spec"; fn; ty; v; orc] ->
+    let f = if fn = "JS" then FJS else FJSON in
+    missing := [];
+    (match json_of_top (leaves_of (parse_oracles orc)) f (ty_of_string ty) (val_of_string v) with
+     | Some j -> "ok:" ^ hex_of_bytes (json_print j)
+     | None -> "none")
   | _ -> "driver-error:unknown-command"
 
 let () = main_loop handle
